@@ -260,6 +260,12 @@ def build(ctx, version, o, route, rng):
                     for k in dropped:
                         kw.pop(k)
                     ctx.count("constructed_with_clock_defaults")
+            if o["type"] == "marking-definition" and isinstance(kw.get("definition"), dict) and kw.get("definition_type") in ("statement", "tlp") and rng.random() < 0.6:
+                # the definition as an object of its marking class (which may itself carry custom content)
+                mod = stix2.v20 if version == "2.0" else stix2.v21
+                mcls = mod.StatementMarking if kw["definition_type"] == "statement" else mod.TLPMarking
+                kw["definition"] = mcls(allow_custom=True, **kw["definition"])
+                ctx.count("marking_definitions_given_as_objects")
             return cls(allow_custom=True, **kw)
     except Exception as e:
         ctx.skip("construction refused (%s) -- C03's subject, not round trip" % type(e).__name__)
@@ -300,6 +306,18 @@ def wl_builtin(ctx, rng, i):
     if [x for x in validator.validate({k: v for k, v in o.items() if not k.startswith("x_")}, ver) if x[0] != "integer-type-range"]:
         ctx.skip("generator error")
         return
+    if rnd % 3 == 1 and t != "bundle":
+        # ... and custom properties inside the objects it embeds (external references, kill chain phases, the definition of a marking,
+        # predefined extensions, MIME parts ...): each of them is built with the parent's allow_custom, on the way in and on the way back
+        try:
+            from ..gen import corrupt
+            _, nested_objs = corrupt.slots(ver, o)
+            for path, _tbl, section in nested_objs:
+                if path and rng.random() < 0.5 and isinstance(corrupt.get(o, path), dict) and not section.startswith("observable"):
+                    corrupt.get(o, path)["x_nested_custom"] = rng.choice(["v", 7, [1, "a"], {"k": "v"}])
+                    ctx.count("nested_custom_properties")
+        except Exception:
+            pass
     route = "parse" if rnd % 2 == 0 else "constructor"
     obj = build(ctx, ver, o, route, rng)
     if obj is None:
@@ -342,8 +360,14 @@ def wl_custom(ctx, rng, i):
                 o["x_siblings"]["mm"][rng.choice(["\u00b2", "\u0663", "1", "01"])] = 0
         elif kind == 0:
             o = gcustom.widget(g)
-        elif kind == 1:
+        elif kind == 1 and (i // 11) % 3 == 0:
             o = gcustom.marking_definition(g)
+        elif kind == 1:
+            # a statement / TLP marking whose definition carries a custom property of its own
+            o = g.make("marking-definition", "random")
+            if isinstance(o.get("definition"), dict) and o.get("definition_type") == "statement":
+                o["definition"]["x_in_definition"] = rng.choice(["v", 3, ["a"], {"k": 1}])
+            special = "marking-route"
         elif kind == 2 and ver == "2.1":
             o = gcustom.sensor21(g, with_id=(i % 4 < 2))
         elif kind == 3 and ver == "2.1":
@@ -371,7 +395,9 @@ def wl_custom(ctx, rng, i):
     except KeyError:
         ctx.skip("kind not available for this version")
         return
-    if special and i % 3:
+    if special == "marking-route":
+        obj = build(ctx, ver, o, "parse" if (i // 11) % 2 else "constructor", rng)
+    elif special and i % 3:
         obj = build_special(ctx, ver, o, special, rng)
     else:
         obj = build(ctx, ver, o, "parse" if i % 3 else "constructor", rng)
